@@ -160,7 +160,8 @@ func PlaceFile(afs fs.FS, fmeta fs.Metadata, body io.Reader, skipChown bool) err
 		}
 		// Chown'ing may clear the setuid and setgid bits, if they were present!
 		//  Reinstate them.
-		if fmeta.Perms&(fs.Perms_Setuid|fs.Perms_Setgid) != 0 {
+		//  (Not for symlinks: there is no lchmod, and chmod would act on whatever the link points at.)
+		if fmeta.Perms&(fs.Perms_Setuid|fs.Perms_Setgid) != 0 && fmeta.Type != fs.Type_Symlink {
 			if err := afs.Chmod(fmeta.Name, fmeta.Perms); err != nil {
 				return err
 			}
